@@ -265,9 +265,21 @@ def e2e_symbols(mc):
     return syms
 
 
-def e2e_prologue(mc):
+TYPE_LABELS = [(b"first type", b""), (b"same label", b"same label"), (b"", b"")]
+
+
+def label_variant(word):
+    """Which pair of labels the two task types of a case carry: distinct, or the
+    same string under two type ids (drawn from the word, so that a case is
+    reproducible from the word alone)."""
+    import zlib
+    return zlib.crc32(repr([(t, m, bytes(p)) for (t, m, p) in word]).encode()) % len(TYPE_LABELS)
+
+
+def e2e_prologue(mc, variant=0):
+    la, lb = TYPE_LABELS[variant]
     h = [(KEYS[0], "OHx", obs.i32(0, 10, 0), False), (KEYS[1], "OHx", obs.i32(1, 11, 0), False),
-         (KEYS[0], mc + "Yc", obs.u32(1) + b"first type\0", True), (KEYS[0], mc + "Yc", obs.u32(2) + b"\0", True),
+         (KEYS[0], mc + "Yc", obs.u32(1) + la + b"\0", True), (KEYS[0], mc + "Yc", obs.u32(2) + lb + b"\0", True),
          (KEYS[0], mc + "Tc", obs.u32(1, 1), False), (KEYS[1], mc + "Tc", obs.u32(2, 2), False)]
     if mc == "V":
         h.append((KEYS[0], "VTC", obs.u32(3, 1), False))
@@ -275,7 +287,7 @@ def e2e_prologue(mc):
 
 
 def build_hist(mc, word):
-    evs = e2e_prologue(mc) + [(KEYS[ti], mcv, pl, False) for (ti, mcv, pl) in word] + \
+    evs = e2e_prologue(mc, label_variant(word)) + [(KEYS[ti], mcv, pl, False) for (ti, mcv, pl) in word] + \
           [(KEYS[0], "OHe", b"", False), (KEYS[1], "OHe", b"", False)]
     return [(5000 + 3 * i, k, m, p, j) for i, (k, m, p, j) in enumerate(evs)]
 
